@@ -143,8 +143,16 @@ def rename_text(text, old, new):
     return text.replace(old, new)      # names are unique substrings of the script (checked in selftest)
 
 
+def _rename_component(c, old, new):
+    if c == old:
+        return new
+    if c.startswith(old) and c[len(old):].isdigit():      # insular clone tag: <original framer name><count>
+        return new + c[len(old):]
+    return c
+
+
 def rename_path(path, old, new):
-    return ".".join("_".join(new if c == old else c for c in seg.split("_")) for seg in path.split("."))
+    return ".".join("_".join(_rename_component(c, old, new) for c in seg.split("_")) for seg in path.split("."))
 
 
 def names_in(path):
@@ -175,8 +183,8 @@ def through(form, slot, placement, cfgname):
 
 # ----------------------------------------------------------------------------- observation
 
-def observe(real, addr, text):
-    """-> (kind, refmap {key: name}, store names list, exc text)"""
+def observe(real, addr, text, ticks=0):
+    """-> (kind, refmap {key: name}, store names list, exc text); ticks > 0: run that many ticks first"""
     res = real.build_text(text, limit=30.0)
     if res.kind == "Watchdog":
         res = real.build_text(text, limit=120.0)
@@ -184,6 +192,10 @@ def observe(real, addr, text):
         where = res.tb[-1].name if res.tb else ""
         return (res.kind, None, None, "%s %s in %s" % (res.kind, res.exc, where))
     house = res.houses[0]
+    if ticks:
+        rr = real.run(res.houses, tick=0.125, horizon=ticks, limit=60.0)
+        if rr.outcome != "returned":
+            return ("run-" + rr.outcome, None, None, "run %s %r" % (rr.outcome, rr.exc))
     refs = {}
     framers = addr.house_framers(house)
     for fi, fm in enumerate(framers):
@@ -266,18 +278,26 @@ def collision_names(pattern):
     return n
 
 
-def collision_program(names, cvia, fstyle, place, line):
+def collision_program(names, cvia, fstyle, place, line, mode="aux"):
     cv, mv = cvia[1], cvia[2]
     fv = fstyle[1]
-    src = ["house h", "init .k.src with value 1",
-           "framer wfa be active first %s via top" % names["MF"],
-           "frame %s via %s" % (names["OF"], fv["OF"]),
-           "frame %s in %s via %s" % (names["MF"], names["OF"], fv["MF"]),
-           "  aux wfd as tgc" + cv,
-           "framer wfb be active first hrc",
-           "frame hrc",
-           "framer wfd be moot first %s%s" % (names["CF"], mv),
-           "frame %s via %s" % (names["CO"], fv["CO"])]
+    src = ["house h", "init .k.src with value 1"]
+    if mode == "aux":
+        src += ["framer wfa be active first %s via top" % names["MF"],
+                "frame %s via %s" % (names["OF"], fv["OF"]),
+                "frame %s in %s via %s" % (names["MF"], names["OF"], fv["MF"]),
+                "  aux wfd as tgc" + cv]
+    else:   # insular clone reared at run time under frame MF by an action of the host frame hrh
+        src += ["framer wfa be active first hrh via top",
+                "frame %s via %s" % (names["OF"], fv["OF"]),
+                "frame hrh in %s via eta" % names["OF"],
+                "  rear wfd as mine be aux in frame %s" % names["MF"],
+                "  go %s" % names["MF"],
+                "frame %s in %s via %s" % (names["MF"], names["OF"], fv["MF"])]
+    src += ["framer wfb be active first hrc",
+            "frame hrc",
+            "framer wfd be moot first %s%s" % (names["CF"], mv),
+            "frame %s via %s" % (names["CO"], fv["CO"])]
     if place == "outer":
         src.append("  " + line)
     src.append("frame %s in %s via %s" % (names["CF"], names["CO"], fv["CF"]))
@@ -287,27 +307,37 @@ def collision_program(names, cvia, fstyle, place, line):
     return "\n".join(src)
 
 
+RUN_TICKS = 3      # rear mode: start tick enters hrh (rear action), next tick takes `go MF`
+
+
 def collision_cases(tier):
     out = []
-    cvias = CVIAS if tier == "thorough" else CVIAS[:2]
-    for pname, pattern in PATTERNS:
-        for cvia in cvias:
-            for fstyle in FSTYLES:
-                for place in CPLACES:
-                    for cl in CLINES:
-                        out.append((pname, pattern, cvia, fstyle, place, cl))
+    for mode in ("aux", "rear"):
+        if mode == "aux":
+            cvias = CVIAS if tier == "thorough" else CVIAS[:2]
+            fstyles = FSTYLES
+        else:      # `rear` has no via clause: only the moot's own via varies
+            cvias = CVIAS[1:] if tier == "thorough" else CVIAS[1:2]
+            fstyles = FSTYLES if tier == "thorough" else FSTYLES[:1]
+        for pname, pattern in PATTERNS:
+            for cvia in cvias:
+                for fstyle in fstyles:
+                    for place in CPLACES:
+                        for cl in CLINES:
+                            out.append((pname, pattern, cvia, fstyle, place, cl, mode))
     return out
 
 
 def check_collision(real, addr, p, case):
-    pname, pattern, cvia, fstyle, place, (lid, line) = case
+    pname, pattern, cvia, fstyle, place, (lid, line), mode = case
     names = collision_names(pattern)
-    text = collision_program(names, cvia, fstyle, place, line)
-    tag = "collide|%s|%s|%s" % (pname, lid, place)
+    text = collision_program(names, cvia, fstyle, place, line, mode)
+    tag = "collide-%s|%s|%s|%s" % (mode, pname, lid, place)
     where = "%s frame-via-%s" % (cvia[0], fstyle[0])
-    orig = observe(real, addr, text)
+    ticks = RUN_TICKS if mode == "rear" else 0
+    orig = observe(real, addr, text, ticks)
     p.evaluations += 1
-    rep = dict(script=text, line=line, pattern=pname, names=names,
+    rep = dict(script=text, line=line, pattern=pname, names=names, mode=mode, run_ticks=ticks,
                how="build with ioflo.base.building.Builder; read the Share/Node objects in the act's parms (actor attributes for "
                    "doers) and house.store share names; frames of wfd (cloned as wfa_tgc) and of wfa are different entities "
                    "even when they carry the same name")
@@ -318,17 +348,22 @@ def check_collision(real, addr, p, case):
     p.nontrivial(tag + "|" + where)
     p.outcome("collision family: built (%s)" % ("colliding names" if pattern else "distinct names"))
     mine = sorted(set(v[0] for v in orig[1].values() if v[1] == line))
-    renamings = [("frame " + k, k) for k in PLACEHOLDERS] + [("name " + e, e) for e in CENTITIES]
+    if not mine:
+        p.violation("%s|no-reference-found" % tag, where, "line `%s` built but no resolved reference was found for it "
+                    "(clone not created?)" % line, rep)
+        return
+    ents = [e for e in CENTITIES if not (mode == "rear" and e == TAG)]
+    renamings = [("frame " + k, k) for k in PLACEHOLDERS] + [("name " + e, e) for e in ents]
     for label, what in renamings:
         if what in PLACEHOLDERS:
             n2 = dict(names)
             n2[what] = FRESH
             old = names[what]
-            rtext = collision_program(n2, cvia, fstyle, place, line)
+            rtext = collision_program(n2, cvia, fstyle, place, line, mode)
         else:
             old = what
             rtext = rename_text(text, what, FRESH)
-        ren = observe(real, addr, rtext)
+        ren = observe(real, addr, rtext, ticks)
         p.evaluations += 1
         rrep = dict(rep, renamed_script=rtext, rename=[label, old, FRESH])
         if ren[0] != "ok":
@@ -535,8 +570,8 @@ def replay(path):
             break
     if hit is None:
         for case in collision_cases("thorough"):
-            pname, pattern, cvia, fstyle, place, (lid, line) = case
-            if collision_program(collision_names(pattern), cvia, fstyle, place, line) == script:
+            pname, pattern, cvia, fstyle, place, (lid, line), mode = case
+            if collision_program(collision_names(pattern), cvia, fstyle, place, line, mode) == script:
                 hit = case
                 break
         if hit is None:
@@ -581,8 +616,8 @@ def run():
     ]
     return ck.finish(
         rule="every (via configuration, placement, verb slot, reference form) program (%d) x the unrenamed build + 11 single "
-             "renamings, plus every frame-name collision program (%d: 7 name patterns x clone/moot via x frame via style x "
-             "placement x 15 lines) x 9 single renamings; non-trivial = programs that build and carry a resolved reference"
+             "renamings, plus every frame-name collision program (%d: named aux clone / run-time reared insular clone x 7 name "
+             "patterns x clone/moot via x frame via style x placement x 15 lines) x 9 (8 reared) single renamings; non-trivial = programs that build and carry a resolved reference"
              % (len(cs), len(cc)),
         exhaustive=True)
 
